@@ -13,6 +13,7 @@ TRUSTED = [
     "Coq 8.16.1 kernel incl. vm_compute; axioms: none",
     "a node is abstracted to the match bits of its pattern kinds for one symbol name; whether a single pattern matches a name is fnmatch (Python's fnmatchcase here; POSIX fnmatch is C15's subject)",
     "spec = GNU ld's bfd_find_version_for_sym written as a scan (C32/Model.v gnu_match), validated on every run against GNU ld 2.40 on the generated links",
+    "the text of every generated script is parsed by the parser model (C22/VScript.v, theorem C22_version_script_round_trip for its white-space-free form) and by wild's parser (hook): both must return the generated structure",
     "extern \"C++\" patterns, `sym@VER` in the objects, version requirements of shared-library inputs and anonymous scripts are outside the generated inputs; the verdef consistency check is a structural predicate on wild's output, not a theorem",
 ]
 
@@ -169,6 +170,44 @@ def run(chk, replay=None):
             scripts += [[(g, l) for g, l in s] for s in json.load(open(cp))]
         for k in range(60 if chk.tier == "quick" else 600):
             scripts.append(gen_script(rng, odd=(k % 3 == 2)))
+    # ---- the text of every generated script through the parser model (C22/VScript.v) and the real parser (hook):
+    #      both must give back the structure the script was generated from
+    okh, outh, wvh = harness_build()
+    if not okh:
+        chk.tie_break("the harness does not build", outh[-1500:])
+    else:
+        from props import c22 as c22mod
+        texts = [script_text(nodes).encode() for nodes in scripts]
+        impl = run_impl(wvh, "c22", ["vs " + t.hex() for t in texts])
+        vitems = ["vs [" + "; ".join(str(b) for b in t) + "]" for t in texts]
+        per = (len(vitems) + NCPU - 1) // NCPU or 1
+        vb = ["Eval vm_compute in [\n" + ";\n".join(vitems[j * per:(j + 1) * per]) + "].\n" for j in range(NCPU) if vitems[j * per:(j + 1) * per]]
+        flat, okp = [], True
+        for rc_, o in coq_eval_sharded("c32vs", c22mod.VS_IMPORTS, vb, timeout=900):
+            if rc_ != 0:
+                chk.tie_break("parser model evaluation failed (coqc)", o[-1500:])
+                okp = False
+                continue
+            flat += parse_coq_value(o)
+        parse_stats = {"texts": len(texts), "parsed_as_generated": 0}
+        if okp and len(flat) == len(texts):
+            for nodes, t, mv, im in zip(scripts, texts, flat, impl):
+                # what the generator meant: version i+1 named V<i+1>, parent V<i>, patterns by kind and section
+                want = [([], 0, ([], []))]
+                for i, (g, l) in enumerate(nodes):
+                    def pm(ps):
+                        return [(0, [({"x": 0, "n": 3, "s": 2, "a": 4}[kind(p_)], [] if p_ == "*" else list(p_.encode()))]) for p_ in ps]
+                    want.append((list(f"V{i + 1}".encode()), 0 if i == 0 else i + 1, (pm(g), pm(l))))
+                want_r = c22mod.render_vs((1, want[1:]))
+                got_m = c22mod.render_vs(mv)
+                got_i = "E" if im.startswith("E ") else im
+                if got_m != want_r:
+                    chk.tie_break("C22.VScript.parse_version_script does not give back the structure a generated script was printed from", {"script": t.decode(), "model": got_m[:400], "generated": want_r[:400]})
+                elif got_i != want_r:
+                    chk.tie_break("wild's version-script parser does not give back the structure a generated script was printed from", {"script": t.decode(), "wild": got_i[:400], "generated": want_r[:400]})
+                else:
+                    parse_stats["parsed_as_generated"] += 1
+        chk.cov["parser"] = parse_stats
     known = {k["id"] for k in chk.known}
     stats = {"scripts": len(scripts), "symbols": 0, "canonical": 0, "wild_eq_ld": 0, "model_mismatch": 0, "spec_mismatch": 0, "exported_versioned": 0, "hidden": 0, "verdef_problems": 0}
     d = tempfile.mkdtemp(prefix="c32")
